@@ -46,6 +46,18 @@ CHECKS = {
    note='Trusted: clang front end; correctly rounded host printf and C literal parsing; union same-size type punning. '
         'Not decided: the run-time value the C compiler assigns to the literal.',
    ref='DESIGN.md 4/C07'),
+ 'C12': dict(
+   technique='partial evaluation of every I/O import (both ABI generations) with symbolic guest memory: affine guest load/store offsets vs witx layouts, native-call argument provenance, table evaluation against host macros read at run time, seek/restore pairing with errno havoc',
+   text='ABI signatures of all imports are compared with the witx lowering (mismatches of the nine imports named by the property are '
+        'violations). For fd_read/fd_write/fd_pread/fd_pwrite with 0, 1 and 3 segments: the vector is read at stride 8 (buf@0, len@4) in '
+        'ascending order, native segment k is built from guest entry k, the native call gets the table\'s fd and the same count, the u32 '
+        'count is stored at the result pointer, 64-bit offsets reach lseek un-narrowed, errors never store results or report SUCCESS. '
+        'fd_seek/fd_tell: whence tables of both generations against the host SEEK_* values, u64 result. errno switch: every host E* value '
+        'maps to the witx number of the same name. path_open: each oflags/fdflags bit sets the same-named host flag, access mode follows the '
+        'rights, the new descriptor is stored as u32. filestat (both generations) and fdstat: (offset, width) of every store and the zero-fill '
+        'size equal the witx struct. wrapPositional restores the saved position on every path and preserves the transfer\'s errno.',
+   note='POSIX behaviour of the host calls, short transfers and resulting file contents are not decided; host constants come from the build\'s headers.',
+   ref='DESIGN.md 4/C12'),
  'C13': dict(
    technique='typestate analysis by partial evaluation: summary of fd_close gives the CLOSED record; every descriptor-taking import of both ABI generations is evaluated on CLOSED and on a never-issued index; syntactic who-writes rules for the append-only table',
    text='The descriptor table only grows by one in the insertion helper, insertion returns the new last index and leaves live slots '
